@@ -25,4 +25,15 @@ LEVELS = {
   'note': 'Trusted: Lean kernel; model of basset_sei_reward/user.rs+global.rs; the invariant premise is C14. Paired-history (permutation) runs on the implementation are represented by the per-step dues oracle, not by whole-history pairs.',
   'technique': 'Lean 4 algebraic theorems over the reward state machine; per-step oracle on the implementation',
  },
+ 'C18': {
+  'text': 'Ledger invariant Token.WF (holders duplicate-free, zero outside, sum of balances = total_supply) proved for every instantiate message '
+          '(C18_init_wf, repeated addresses included - after the fix commit 669b1db) and preserved by every successful message of every sender in both wrappers '
+          '(C18_core_step via C18_bsei_step / C18_stsei_step); the same theorem fixes who can change the supply (Mint: minter only; Burn: hub on its own balance; '
+          'BurnFrom: within an unexpired allowance), that *From operations never exceed the allowance and lower it by exactly the amount, and that the minter only '
+          'changes through UpdateMinter by the minter; C18_burn_refreshes_rates: stSei Burn/BurnFrom and bSei BurnFrom emit CheckSlashing to the hub. '
+          'Tied to the Rust by differential token histories (both flavours, expirations at the boundary height/second) and the sum/authority oracle on every step.',
+  'note': 'Trusted: Lean kernel; hand-written model of cw20-legacy, of the cw20-base 0.16 behaviours stSei relies on, and of the two wrappers; holders outside the fixed cast are not observed by the harness (the theorem covers all addresses). '
+          'That the hub never sends UpdateMinter is by inspection of the hub model (it emits only Mint and Burn to the tokens).',
+  'technique': 'Lean 4 invariant proof over all token messages; differential correspondence + ledger oracle',
+ },
 }
